@@ -943,3 +943,354 @@ func ruleArmTwin(p *Prog, r *Result) {
 	}
 	r.floor("type switches with a string and a []byte arm", n, 5)
 }
+
+// ---------------- SHORTBATCH ----------------
+
+func init() {
+	register("SHORTBATCH", "batch protocol between plans: the end of a child's stream is an empty batch. If some consumer also stops on a batch shorter than PlanBatchSize, then every producer must return a short batch only when it is exhausted: from any append to the returned rows, every path to a successful return crosses a test that the batch is full (its row counter >= PlanBatchSize), that the stream or region ended, or that the limit was reached. Independently of that, a pair-level plan never returns a batch (which may be empty) before a test that it is full or that the stream, region or limit ended: an empty batch ends every consumer", ruleShortBatch)
+}
+
+func ruleShortBatch(p *Prog, r *Result) {
+	plans, finals, err := p.planTypes()
+	if err != nil {
+		r.undecided("%v", err)
+		return
+	}
+	all := append(append([]*types.Named{}, plans...), finals...)
+	isBatchSize := func(v ssa.Value) bool {
+		return derivesFrom(v, func(x ssa.Value) bool {
+			ld, ok := x.(*ssa.UnOp)
+			if !ok || ld.Op != token.MUL {
+				return false
+			}
+			g, ok := ld.X.(*ssa.Global)
+			return ok && g.Name() == "PlanBatchSize"
+		})
+	}
+	isChildBatchRows := func(v ssa.Value) bool {
+		return derivesFromNoElem(v, func(x ssa.Value) bool {
+			ex, ok := x.(*ssa.Extract)
+			if !ok || ex.Index != 0 {
+				return false
+			}
+			c, ok := ex.Tuple.(*ssa.Call)
+			return ok && c.Call.IsInvoke() && c.Call.Method.Name() == "Batch"
+		})
+	}
+	lenOfRows := func(v ssa.Value) bool {
+		return derivesFrom(v, func(x ssa.Value) bool {
+			c, ok := x.(*ssa.Call)
+			if !ok {
+				return false
+			}
+			b, ok := c.Call.Value.(*ssa.Builtin)
+			return ok && b.Name() == "len" && isChildBatchRows(c.Call.Args[0])
+		})
+	}
+	// (C) consumers that stop on a short batch
+	var shortConsumers []string
+	shortIfaces := map[string]bool{}
+	nCons := 0
+	for _, fn := range p.Funcs {
+		hasFetch := false
+		fetchIface := ""
+		allInstrs(fn, func(in ssa.Instruction) {
+			if c, ok := in.(*ssa.Call); ok && c.Call.IsInvoke() && c.Call.Method.Name() == "Batch" && (typeName(c.Call.Value.Type()) == "Plan" || typeName(c.Call.Value.Type()) == "FinalPlan") {
+				hasFetch = true
+				fetchIface = typeName(c.Call.Value.Type())
+			}
+		})
+		if !hasFetch {
+			continue
+		}
+		nCons++
+		loops := naturalLoops(fn)
+		for _, b := range fn.Blocks {
+			for si := range b.Succs {
+				a, ok := edgeAtom(b, si)
+				if !ok {
+					continue
+				}
+				x, y, op := a.X, a.Y, a.Op
+				if lenOfRows(y) && isBatchSize(x) {
+					x, y, op = y, x, swapOp(op)
+				}
+				if !(lenOfRows(x) && isBatchSize(y)) || (op != token.LSS && op != token.LEQ && op != token.NEQ) {
+					continue
+				}
+				// does this edge end the consumption (leave the loop that fetches, or return)?
+				s := b.Succs[si]
+				ends := retOf(s) != nil
+				for _, L := range loops {
+					if L.Body[b] && !L.Body[s] {
+						ends = true
+					}
+				}
+				if ends {
+					shortIfaces[fetchIface] = true
+					shortConsumers = append(shortConsumers, fmt.Sprintf("%s (%s)", p.FName(fn), p.InstrPos(b.Instrs[len(b.Instrs)-1])))
+				}
+			}
+		}
+	}
+	r.note("batch_consumers", nCons)
+	r.note("consumers_stopping_on_a_short_batch", shortConsumers)
+	if nCons < 4 {
+		r.undecided("floor: batch consumers = %d, need >= 4", nCons)
+	}
+	if len(shortConsumers) == 0 {
+		r.ok("consumers", "", "no consumer treats a short batch as the end of the stream (only an empty batch ends it): producers may return short batches, but never an empty one before they are exhausted")
+	}
+	// (P) producers: a short batch only when exhausted
+	// producers examined: the pair-level plans always (an empty batch ends every consumer), the row-level plans
+	// only when one of their consumers stops on short batches
+	producers := append([]*types.Named{}, plans...)
+	if shortIfaces["FinalPlan"] {
+		producers = append(producers, finals...)
+	}
+	isPlanLevel := map[*types.Named]bool{}
+	for _, t := range plans {
+		isPlanLevel[t] = true
+	}
+	_ = all
+	for _, t := range producers {
+		fn := p.Method(t, "Batch")
+		if fn == nil || len(fn.Blocks) == 0 {
+			continue
+		}
+		key := "producer|" + p.FName(fn)
+		var rets []*ssa.Return
+		for _, b := range fn.Blocks {
+			ret := retOf(b)
+			if ret == nil || len(ret.Results) < 2 || isNilConst(retVal(ret, 0)) || !isNilConst(retVal(ret, 1)) {
+				continue
+			}
+			rets = append(rets, ret)
+		}
+		if len(rets) == 0 {
+			r.ok(key, p.Pos(fn.Pos()), "returns no rows")
+			continue
+		}
+		// appends into the returned rows
+		appBlocks := map[*ssa.BasicBlock]bool{}
+		var apps []*ssa.Call
+		for _, ret := range rets {
+			for _, c := range appendsInto(retVal(ret, 0)) {
+				appBlocks[c.Block()] = true
+				apps = append(apps, c)
+			}
+		}
+		recv := ssa.Value(fn.Params[0])
+		isPlanField := func(v ssa.Value) bool {
+			_, _, base, ok := loadedField(v)
+			return ok && base == recv
+		}
+		isRowCounter := func(v ssa.Value) bool {
+			if c, ok := v.(*ssa.Call); ok {
+				if b, isB := c.Call.Value.(*ssa.Builtin); isB && b.Name() == "len" {
+					for _, ret := range rets {
+						if sliceRootsOverlap(c.Call.Args[0], retVal(ret, 0)) {
+							return true
+						}
+					}
+				}
+			}
+			found := false
+			backward(v, func(x ssa.Value) bool {
+				if bo, ok := x.(*ssa.BinOp); ok && bo.Op == token.ADD {
+					if k, isC := constInt(bo.Y); isC && k == 1 && appBlocks[bo.Block()] {
+						found = true
+					}
+				}
+				_, isPhi := x.(*ssa.Phi)
+				_, isBin := x.(*ssa.BinOp)
+				return isPhi || isBin
+			})
+			return found
+		}
+		var allowedEdge func(b *ssa.BasicBlock, si int, depth int) bool
+		justifiedBlock := func(b *ssa.BasicBlock, depth int) bool {
+			// b is dominated by an allowed edge
+			for _, x := range fn.Blocks {
+				for si := range x.Succs {
+					if edgeDominates(x, si, b) && allowedEdge(x, si, depth+1) {
+						return true
+					}
+				}
+			}
+			return false
+		}
+		allowedEdge = func(b *ssa.BasicBlock, si int, depth int) bool {
+			if depth > 3 {
+				return false
+			}
+			a, ok := edgeAtom(b, si)
+			if !ok {
+				return false
+			}
+			x, y, op := a.X, a.Y, a.Op
+			// END: fetched key / value nil, child batch empty, region test
+			if isNilConst(y) && op == token.EQL {
+				if ex, ok := x.(*ssa.Extract); ok {
+					if c, ok := ex.Tuple.(*ssa.Call); ok && p.storage().siteOf(c) != nil {
+						return true
+					}
+				}
+			}
+			if k, isC := constInt(y); isC && k == 0 && op == token.EQL && lenOfRows(x) {
+				return true
+			}
+			if c, ok := x.(*ssa.Call); ok {
+				switch p.calleeName(&c.Call) {
+				case "bytes.Compare", "bytes.HasPrefix":
+					return true
+				}
+			}
+			// FULL: row counter >= PlanBatchSize
+			if isBatchSize(x) && !isBatchSize(y) {
+				x, y, op = y, x, swapOp(op)
+			}
+			if isBatchSize(y) && (op == token.GEQ || op == token.GTR) && isRowCounter(x) {
+				if yl, ok := y.(*ssa.UnOp); ok {
+					if _, isG := yl.X.(*ssa.Global); isG {
+						return true
+					}
+				}
+			}
+			// END / LIMIT on the plan's own position fields: idx >= numKeys, current >= Count
+			if (op == token.GEQ || op == token.GTR) && isPlanField(x) && isPlanField(y) {
+				return true
+			}
+			// flags: a Boolean that is true only where an allowed test held
+			if bv, isB := constBool(y); isB && ((op == token.EQL) == bv) {
+				switch f := x.(type) {
+				case *ssa.Phi:
+					okAll, any := true, false
+					seen := map[*ssa.Phi]bool{}
+					var rec func(ph *ssa.Phi)
+					rec = func(ph *ssa.Phi) {
+						if seen[ph] {
+							return
+						}
+						seen[ph] = true
+						for i, e := range ph.Edges {
+							if cv, isC := constBool(e); isC {
+								if cv {
+									any = true
+									if !justifiedBlock(ph.Block().Preds[i], depth) {
+										okAll = false
+									}
+								}
+								continue
+							}
+							if p2, ok := e.(*ssa.Phi); ok {
+								rec(p2)
+								continue
+							}
+							okAll = false
+						}
+					}
+					rec(f)
+					return okAll && any
+				case *ssa.UnOp:
+					if _, fl, base, ok := loadedField(f); ok && base == recv {
+						okAll, any := true, false
+						allInstrs(fn, func(in ssa.Instruction) {
+							if st, ok := in.(*ssa.Store); ok {
+								if _, f2, b2, ok := fieldOfAddr(st.Addr); ok && f2 == fl && b2 == recv {
+									if cv, isC := constBool(st.Val); isC && cv {
+										any = true
+										if !justifiedBlock(st.Block(), depth) {
+											okAll = false
+										}
+									} else if !isC {
+										okAll = false
+									}
+								}
+							}
+						})
+						return okAll && any
+					}
+				}
+			}
+			return false
+		}
+		// (always, pair-level plans) no empty batch before exhaustion: every path from the entry to a successful
+		// return of rows crosses an allowed test
+		if isPlanLevel[t] {
+			seenE := map[*ssa.BasicBlock]bool{}
+			var walkE func(b *ssa.BasicBlock) *ssa.Return
+			walkE = func(b *ssa.BasicBlock) *ssa.Return {
+				if seenE[b] {
+					return nil
+				}
+				seenE[b] = true
+				for _, ret := range rets {
+					if ret.Block() == b {
+						return ret
+					}
+				}
+				for si, s2 := range b.Succs {
+					if allowedEdge(b, si, 0) {
+						continue
+					}
+					if rt := walkE(s2); rt != nil {
+						return rt
+					}
+				}
+				return nil
+			}
+			rt := walkE(fn.Blocks[0])
+			r.add(rt == nil, key+"|no-early-empty", p.Pos(fn.Pos()), map[bool]string{true: "every successful return follows a test that the batch is full or that the stream, region or limit ended", false: "a batch can be returned (at " + func() string {
+				if rt != nil {
+					return p.InstrPos(rt)
+				}
+				return ""
+			}() + ") without the batch being full and without the stream, region or limit having ended: it may be empty although rows remain, and every consumer takes an empty batch for the end"}[rt == nil])
+		}
+		if len(shortConsumers) == 0 || !(shortIfaces["Plan"] && isPlanLevel[t] || shortIfaces["FinalPlan"] && !isPlanLevel[t]) {
+			continue
+		}
+		// search: from an append block to a successful return without crossing an allowed edge
+		bad := ""
+		for _, ap := range apps {
+			seen := map[*ssa.BasicBlock]bool{}
+			var walk func(b *ssa.BasicBlock) bool
+			walk = func(b *ssa.BasicBlock) bool {
+				if seen[b] {
+					return false
+				}
+				seen[b] = true
+				for _, ret := range rets {
+					if ret.Block() == b {
+						return true
+					}
+				}
+				for si, s := range b.Succs {
+					if allowedEdge(b, si, 0) {
+						continue
+					}
+					if walk(s) {
+						return true
+					}
+				}
+				return false
+			}
+			if walk(ap.Block()) {
+				bad = fmt.Sprintf("rows appended at %s can be returned without the batch being full and without the stream, region or limit having ended: a short batch that is not the last one, which %v take for the end", p.InstrPos(ap), shortConsumers)
+				break
+			}
+		}
+		r.add(bad == "", key, p.Pos(fn.Pos()), firstNonEmpty(bad, "a short batch is returned only when exhausted"))
+	}
+}
+
+func sliceRootsOverlap(a, b ssa.Value) bool {
+	ra, rb := sliceRoots(a), sliceRoots(b)
+	for x := range ra {
+		if rb[x] {
+			return true
+		}
+	}
+	return false
+}
